@@ -281,6 +281,71 @@ fn eval_cli_repeated(list: &[Entry], dup: usize, at: usize, scratch: &Scratch) -
     v
 }
 
+/// Reference for an explicit assignment: axes are the labels in `order`; `assign` maps samples to labels.
+fn reference_assign(order: &[usize], assign: &[Entry]) -> RefArray {
+    let sizes: Vec<usize> = order.iter().map(|l| assign.iter().filter(|e| e.1 == *l).count()).collect();
+    let shape: Vec<usize> = sizes.iter().map(|n| 2 * n + 1).collect();
+    let mut out = RefArray::zeros(&shape);
+    for rec in 0..6 {
+        let mut idx = vec![0usize; order.len()];
+        for (s, l) in assign {
+            idx[order.iter().position(|x| x == l).unwrap()] += COLS[*s][rec];
+        }
+        out.add(&idx, 1.0);
+    }
+    out
+}
+
+/// A list that names a sample twice with *different* labels is contradictory. The statement does
+/// not say which label wins, so three outcomes are accepted: a diagnosed error, the spectrum in
+/// which the first label of every sample counts, or the one in which the last label counts (axes
+/// by first appearance of the labels in the list as written; a label left without samples may be absent). Anything else - an axis whose
+/// length does not match the samples counted on it, misplaced counts, a panic - is a violation.
+fn eval_cli_conflicting(list: &[Entry], scratch: &Scratch) -> Vec<Viol> {
+    let columns: Vec<usize> = (0..3).collect();
+    let vcf = vcf_for(&columns);
+    let mut order: Vec<usize> = Vec::new();
+    for (_, l) in list {
+        if !order.contains(l) {
+            order.push(*l);
+        }
+    }
+    let mut first: Vec<Entry> = Vec::new();
+    let mut last: Vec<Entry> = Vec::new();
+    for e in list {
+        if !first.iter().any(|f| f.0 == e.0) {
+            first.push(*e);
+        }
+        last.retain(|f| f.0 != e.0);
+        last.push(*e);
+    }
+    // last-label assignment over the labels that still have a sample (a label that lost all its
+    // samples has nothing to count; the tool either reports an error or leaves that axis out)
+    let live: Vec<usize> = order.iter().copied().filter(|l| last.iter().any(|e| e.1 == *l)).collect();
+    let accepted = vec![reference(&first), reference_assign(&live, &last)];
+    let mut v = Vec::new();
+    let path = scratch.file(".samples", file_str_n(list, &PLAIN).as_bytes());
+    let runs = [
+        ("--samples", run_sfs(&["create", "--samples", &list_str(list)], Stdin::Bytes(&vcf), scratch)),
+        ("--samples-file", run_sfs(&["create", "--samples-file", path.to_str().unwrap()], Stdin::Bytes(&vcf), scratch)),
+    ];
+    let _ = std::fs::remove_file(path);
+    for (how, o) in runs {
+        let fine = match parse_out(&o) {
+            Ok(g) => accepted.contains(&g),
+            Err(_) => o.diagnosed_error() && o.stdout.is_empty(),
+        };
+        if !fine {
+            v.push((
+                format!("C09|cli|contradictory-list-gives-inconsistent-spectrum|{how}{}", if o.panicked() { "|panic" } else { "" }),
+                format!("create {how} '{}': {} {:?} {}; accepted: an error, or {:?}", list_str(list), o.status_str(), o.stdout_str(), o.stderr_str().trim(), accepted.iter().map(|a| (&a.shape, &a.data)).collect::<Vec<_>>()),
+                J::obj([("kind", J::s("c09-conflict")), ("samples", J::s(list_str(list)))]),
+            ));
+        }
+    }
+    v
+}
+
 fn eval_cli_errors(scratch: &Scratch) -> (u64, Vec<Viol>) {
     let vcf = vcf_for(&[0, 1, 2]);
     let mut v = Vec::new();
@@ -463,6 +528,31 @@ pub fn run(tier: Tier) -> i32 {
         exhaustive: true,
         extra: vec![],
     });
+    // contradictory lists: a sample named again with a different label
+    let mut conf: Vec<Vec<Entry>> = Vec::new();
+    for len in 2..=4usize {
+        for sel in indices(&vec![3; len]) {
+            for labs in indices(&vec![2; len]) {
+                let l: Vec<Entry> = sel.iter().copied().zip(labs.iter().map(|x| x + 1)).collect();
+                let conflicting = (0..len).any(|i| (0..i).any(|j| l[j].0 == l[i].0 && l[j].1 != l[i].1));
+                if conflicting && (tier.thorough() || len < 4 || (sel.iter().sum::<usize>() + labs.iter().sum::<usize>()) % 2 == 0) {
+                    conf.push(l);
+                }
+            }
+        }
+    }
+    let res = par_map(conf.len(), |i| eval_cli_conflicting(&conf[i], &scratch));
+    for v in res.into_iter().flatten() {
+        rep.violation(v.0, v.1, v.2);
+    }
+    rep.part(Part {
+        name: "cli: contradictory lists".into(),
+        evaluations: 2 * conf.len() as u64,
+        nontrivial: 2 * conf.len() as u64,
+        note: format!("{} lists of 2..4 entries over 3 samples x labels {{A,B}} in which a sample is named again with a different label: a diagnosed error, or the spectrum of the first-label or of the last-label assignment", conf.len()),
+        exhaustive: true,
+        extra: vec![],
+    });
     let (n, v) = eval_cli_errors(&scratch);
     for (k, w, j) in v {
         rep.violation(k, w, j);
@@ -488,7 +578,7 @@ pub fn replay(case: &J) -> Option<Vec<String>> {
         let o = run_sfs(&a, Stdin::Bytes(&vcf_for(&[0, 1, 2])), &scratch);
         return Some(if o.ok() || !o.stdout.is_empty() || !o.diagnosed_error() { vec![format!("C09|cli|invalid-list-accepted :: {a:?}: {} {:?}", o.status_str(), o.stdout_str())] } else { vec![] });
     }
-    if kind != "c09" && kind != "c09-rep" {
+    if kind != "c09" && kind != "c09-rep" && kind != "c09-conflict" {
         return None;
     }
     let list: Vec<Entry> = case
@@ -501,6 +591,10 @@ pub fn replay(case: &J) -> Option<Vec<String>> {
         })
         .collect();
     let scratch = Scratch::new("c09r");
+    if kind == "c09-conflict" {
+        let v = eval_cli_conflicting(&list, &scratch);
+        return Some(v.into_iter().map(|(k, w, _)| format!("{k} :: {w}")).collect());
+    }
     if kind == "c09-rep" {
         let v = eval_cli_repeated(&list, case.get("dup")?.as_i64()? as usize, case.get("at")?.as_i64()? as usize, &scratch);
         return Some(v.into_iter().map(|(k, w, _)| format!("{k} :: {w}")).collect());
